@@ -1,64 +1,13 @@
 import Revm.Model.Blob
 import Revm.Spec.Blob
-/-! Proofs for C32 (core Lean only). -/
+/-! Proofs for C32 (core Lean only), for the repaired `utilities.rs`. -/
 set_option linter.unusedSimpArgs false
 set_option linter.unusedVariables false
 namespace Revm.Proofs.Blob
 open Revm Revm.Model.Blob
 
 theorem U128_eq : U128 = 2^128 := rfl
-
-/-! ### model loop = EIP loop when no intermediate value overflows (both profiles) -/
-
-theorem loop_eq (wrap : Bool) : ∀ fuel i out acc n d, 0 < i → 0 < d →
-    Spec.Blob.loopFits U128 fuel i out acc n d = true →
-    fakeExpLoop wrap fuel i out acc n d = (Spec.Blob.fakeExpLoop fuel i out acc n d).map Res.ok := by
-  intro fuel
-  induction fuel with
-  | zero => intros; rfl
-  | succ k ih =>
-    intro i out acc n d hi hd hfit
-    unfold fakeExpLoop Spec.Blob.fakeExpLoop
-    unfold Spec.Blob.loopFits at hfit
-    by_cases hacc : acc > 0
-    · simp only [hacc, if_true, Bool.and_eq_true, decide_eq_true_eq] at hfit ⊢
-      obtain ⟨⟨⟨⟨h1, h2⟩, h3⟩, h4⟩, h5⟩ := hfit
-      have hden : d * i ≠ 0 := Nat.mul_ne_zero (by omega) (by omega)
-      simp only [add128, mul128, h1, h2, h3, h4, if_true, hden, if_false]
-      exact ih _ _ _ _ _ (by omega) hd h5
-    · simp only [hacc, if_false, Option.map]
-
-/-- the debug profile returns a value only if no intermediate value overflowed, and then it is the
-EIP value -/
-theorem debug_ok_imp : ∀ fuel i out acc n d r,
-    fakeExpLoop false fuel i out acc n d = some (.ok r) →
-    Spec.Blob.fakeExpLoop fuel i out acc n d = some r ∧ Spec.Blob.loopFits U128 fuel i out acc n d = true := by
-  intro fuel
-  induction fuel with
-  | zero => intro i out acc n d r h; simp [fakeExpLoop] at h
-  | succ k ih =>
-    intro i out acc n d r h
-    unfold fakeExpLoop at h
-    unfold Spec.Blob.fakeExpLoop Spec.Blob.loopFits
-    by_cases hacc : acc > 0
-    · simp only [hacc, if_true] at h ⊢
-      by_cases h1 : out + acc < U128
-      · by_cases h2 : acc * n < U128
-        · by_cases h3 : d * i < U128
-          · by_cases h4 : i + 1 < U128
-            · simp only [add128, mul128, h1, h2, h3, h4, if_true] at h
-              by_cases hden : d * i = 0
-              · simp [hden] at h
-              · simp only [hden, if_false] at h
-                have := ih _ _ _ _ _ _ h
-                simp only [h1, h2, h3, h4, decide_true, Bool.and_self, Bool.true_and, this, and_self]
-            · simp [add128, mul128, h1, h2, h3, h4] at h
-          · simp [add128, mul128, h1, h2, h3] at h
-        · simp [add128, mul128, h1, h2] at h
-      · simp [add128, h1] at h
-    · simp only [hacc, if_false] at h ⊢
-      simp only [Option.some.injEq, Res.ok.injEq] at h
-      simp [h]
+theorem W_eq : W = 2^256 := rfl
 
 /-! ### fuel independence -/
 
@@ -76,9 +25,9 @@ theorem spec_fuel_mono : ∀ fuel i out acc n d r k,
     · simp only [hacc, if_true] at h ⊢; exact ih _ _ _ _ _ _ _ h
     · simp only [hacc, if_false] at h ⊢; exact h
 
-theorem model_fuel_mono (wrap : Bool) : ∀ fuel i out acc n d r k,
-    fakeExpLoop wrap fuel i out acc n d = some r →
-    fakeExpLoop wrap (fuel + k) i out acc n d = some r := by
+theorem model_fuel_mono : ∀ fuel i out acc n d r k,
+    fakeExpLoop fuel i out acc n d = some r →
+    fakeExpLoop (fuel + k) i out acc n d = some r := by
   intro fuel
   induction fuel with
   | zero => intro i out acc n d r k h; simp [fakeExpLoop] at h
@@ -88,24 +37,18 @@ theorem model_fuel_mono (wrap : Bool) : ∀ fuel i out acc n d r k,
     unfold fakeExpLoop at h ⊢
     by_cases hacc : acc > 0
     · simp only [hacc, if_true] at h ⊢
-      cases h1 : add128 wrap out acc with
-      | panic => simpa [h1] using h
-      | ok o' =>
+      cases h1 : U256.checkedAdd out acc with
+      | none => simpa [h1] using h
+      | some o' =>
         simp only [h1] at h ⊢
-        cases h2 : mul128 wrap acc n with
-        | panic => simpa [h2] using h
-        | ok p =>
+        cases h2 : U256.checkedMul acc n with
+        | none => simpa [h2] using h
+        | some p =>
           simp only [h2] at h ⊢
-          cases h3 : mul128 wrap d i with
-          | panic => simpa [h3] using h
-          | ok dn =>
-            simp only [h3] at h ⊢
-            by_cases hdn : dn = 0
-            · simpa [hdn] using h
-            · simp only [hdn, if_false] at h ⊢
-              cases h4 : add128 wrap i 1 with
-              | panic => simpa [h4] using h
-              | ok i' => simp only [h4] at h ⊢; exact ih _ _ _ _ _ _ _ h
+          by_cases hdn : U256.wmul d i = 0
+          · simpa [hdn] using h
+          · simp only [hdn, if_false] at h ⊢
+            exact ih _ _ _ _ _ _ _ h
     · simp only [hacc, if_false] at h ⊢; exact h
 
 /-- the EIP value is unique -/
@@ -117,6 +60,22 @@ theorem fakeExp_unique (f n d r r' : Nat) (h : Spec.Blob.FakeExp f n d r) (h' : 
   unfold Spec.Blob.fakeExpFuel at *
   rw [Nat.add_comm b a] at h2
   rw [h1] at h2; exact Option.some.inj h2
+
+theorem model_top_fuel_mono (fuel k f n d : Nat) (r : Res Nat)
+    (h : fakeExponential fuel f n d = some r) : fakeExponential (fuel + k) f n d = some r := by
+  unfold fakeExponential at h ⊢
+  by_cases hd : d = 0
+  · simpa [hd] using h
+  · simp only [hd, if_false] at h ⊢
+    exact model_fuel_mono _ _ _ _ _ _ _ k h
+
+/-- the model's answer does not depend on the fuel -/
+theorem model_top_unique (a b f n d : Nat) (r r' : Res Nat)
+    (h : fakeExponential a f n d = some r) (h' : fakeExponential b f n d = some r') : r = r' := by
+  have h1 := model_top_fuel_mono a b f n d r h
+  have h2 := model_top_fuel_mono b a f n d r' h'
+  rw [Nat.add_comm b a, h1] at h2
+  exact Option.some.inj h2
 
 /-! ### the EIP loop always terminates -/
 
@@ -161,193 +120,218 @@ theorem fakeExp_total (f n d : Nat) : ∃ r, Spec.Blob.FakeExp f n d r := by
   obtain ⟨r, hr⟩ := Option.isSome_iff_exists.mp hf
   exact ⟨r, fuel, hr⟩
 
-/-! ### monotonicity in the numerator: overflow-freedom is downward closed -/
+/-! ### the EIP result dominates every running `output / denominator` -/
 
-theorem div_mono (a a' n n' m : Nat) (ha : a ≤ a') (hn : n ≤ n') : a * n / m ≤ a' * n' / m :=
-  Nat.div_le_div_right (Nat.mul_le_mul ha hn)
-
-theorem fits_mono (B d : Nat) : ∀ fuel i out out' acc acc' n n', out ≤ out' → acc ≤ acc' → n ≤ n' →
-    Spec.Blob.loopFits B fuel i out' acc' n' d = true → Spec.Blob.loopFits B fuel i out acc n d = true := by
+theorem spec_result_ge (n d : Nat) : ∀ fuel i out acc r,
+    Spec.Blob.fakeExpLoop fuel i out acc n d = some r → out / d ≤ r := by
   intro fuel
   induction fuel with
-  | zero => intros; rfl
+  | zero => intro i out acc r h; simp [Spec.Blob.fakeExpLoop] at h
   | succ k ih =>
-    intro i out out' acc acc' n n' ho ha hn h
-    unfold Spec.Blob.loopFits at h ⊢
+    intro i out acc r h
+    unfold Spec.Blob.fakeExpLoop at h
     by_cases hacc : acc > 0
-    · have hacc' : acc' > 0 := by omega
-      simp only [hacc, hacc', if_true, Bool.and_eq_true, decide_eq_true_eq] at h ⊢
-      obtain ⟨⟨⟨⟨h1, h2⟩, h3⟩, h4⟩, h5⟩ := h
-      have hm : acc * n ≤ acc' * n' := Nat.mul_le_mul ha hn
-      refine ⟨⟨⟨⟨by omega, by omega⟩, h3⟩, h4⟩, ?_⟩
-      exact ih _ _ _ _ _ _ _ (by omega) (div_mono _ _ _ _ _ ha hn) hn h5
-    · simp [hacc]
+    · simp only [hacc, if_true] at h
+      exact Nat.le_trans (Nat.div_le_div_right (Nat.le_add_right _ _)) (ih _ _ _ _ h)
+    · simp only [hacc, if_false, Option.some.injEq] at h
+      omega
 
-theorem term_mono (d : Nat) : ∀ fuel i out out' acc acc' n n', acc ≤ acc' → n ≤ n' →
-    (Spec.Blob.fakeExpLoop fuel i out' acc' n' d).isSome = true → (Spec.Blob.fakeExpLoop fuel i out acc n d).isSome = true := by
+/-! ### the repaired loop = clamped EIP value -/
+
+/-- iteration counter bound used for `denominator * i`: beyond `K = 2^65` the accumulator at least
+halves in every round (numerator < 2^64), and it is below 2^256, so the loop cannot pass `K + 256` -/
+def K : Nat := 2^65
+theorem K_val : K = 36893488147419103232 := by unfold K; rfl
+
+theorem halving (acc n d i e : Nat) (hn : n < U64) (hd0 : 0 < d) (hi : K ≤ i)
+    (hacc : acc < 2^(e+1)) : acc * n / (d * i) < 2^e := by
+  apply Nat.div_lt_of_lt_mul
+  have h1 : acc * n < 2^(e+1) * U64 := by
+    by_cases hn0 : n = 0
+    · subst hn0
+      have : 0 < 2^(e+1) * U64 := Nat.mul_pos (Nat.two_pow_pos (e+1)) (by rw [U64_val]; omega)
+      simpa using this
+    · exact Nat.mul_lt_mul'' hacc hn
+  have h2 : 2^(e+1) * U64 = 2^e * K := by
+    rw [Nat.pow_succ, Nat.mul_assoc]; rfl
+  have h3 : 2^e * K ≤ 2^e * i := Nat.mul_le_mul_left _ hi
+  have h4 : 2^e * i ≤ 2^e * (d * i) := Nat.mul_le_mul_left _ (Nat.le_mul_of_pos_left _ hd0)
+  calc acc * n < 2^(e+1) * U64 := h1
+    _ = 2^e * K := h2
+    _ ≤ 2^e * i := h3
+    _ ≤ 2^e * (d * i) := h4
+    _ = d * i * 2^e := Nat.mul_comm _ _
+
+theorem big_quot (x d : Nat) (hd0 : 0 < d) (hd : d < U64) (hx : 2^192 ≤ x) : U128 ≤ x / d := by
+  rw [Nat.le_div_iff_mul_le hd0]
+  have hU := U64_val; have h8 := U128_val
+  have : (2:Nat)^192 = 6277101735386680763835789423207666416102355444464034512896 := by decide
+  rw [h8]; omega
+
+theorem clamp_big (r : Nat) (h : U128 ≤ r) : min r U128_MAX = U128_MAX := by
+  unfold U128_MAX; have := U128_val; omega
+
+theorem loop_sat (n d : Nat) (hn : n < U64) (hd0 : 0 < d) (hd : d < U64) : ∀ fuel i out acc r,
+    1 ≤ i → acc < W → (K ≤ i → acc < 2^(K + 256 - i)) →
+    Spec.Blob.fakeExpLoop fuel i out acc n d = some r →
+    fakeExpLoop fuel i out acc n d = some (.ok (min r U128_MAX)) := by
   intro fuel
   induction fuel with
-  | zero => intro i out out' acc acc' n n' ha hn h; simp [Spec.Blob.fakeExpLoop] at h
+  | zero => intro i out acc r _ _ _ h; simp [Spec.Blob.fakeExpLoop] at h
   | succ k ih =>
-    intro i out out' acc acc' n n' ha hn h
-    unfold Spec.Blob.fakeExpLoop at h ⊢
+    intro i out acc r hi haccW hK h
+    unfold Spec.Blob.fakeExpLoop at h
+    unfold fakeExpLoop
+    have hW := W_val; have hU := U64_val; have h8 := U128_val; have hKv := K_val
+    have h192 : (2:Nat)^192 = 6277101735386680763835789423207666416102355444464034512896 := by decide
     by_cases hacc : acc > 0
-    · have hacc' : acc' > 0 := by omega
-      simp only [hacc, hacc', if_true] at h ⊢
-      exact ih _ _ _ _ _ _ _ (div_mono _ _ _ _ _ ha hn) hn h
-    · simp [hacc]
+    · simp only [hacc, if_true] at h ⊢
+      have hge := spec_result_ge n d _ _ _ _ _ h
+      by_cases h1 : out + acc < W
+      · simp only [U256.checkedAdd, h1, if_true]
+        by_cases h2 : acc * n < W
+        · simp only [U256.checkedMul, h2, if_true]
+          -- the counter is small
+          have hib : i < K + 256 := by
+            by_cases hki : K ≤ i
+            · have := hK hki
+              by_cases he : K + 256 - i = 0
+              · rw [he] at this; simp at this; omega
+              · omega
+            · omega
+          have hdi : d * i < W := by
+            have : d * i < U64 * (K + 256) := Nat.mul_lt_mul'' hd hib
+            rw [hU, hKv] at this; omega
+          have hdi0 : d * i ≠ 0 := Nat.mul_ne_zero (by omega) (by omega)
+          have hwm : U256.wmul d i = d * i := by unfold U256.wmul; exact Nat.mod_eq_of_lt hdi
+          have hwa : U256.wadd i 1 = i + 1 := by unfold U256.wadd; exact Nat.mod_eq_of_lt (by omega)
+          simp only [hwm, hdi0, if_false, hwa]
+          refine ih _ _ _ _ (by omega) ?_ ?_ h
+          · exact Nat.lt_of_le_of_lt (Nat.div_le_self _ _) h2
+          · intro hk1
+            by_cases hki : K ≤ i
+            · have hlt := hK hki
+              have he : K + 256 - i = (K + 256 - (i + 1)) + 1 := by omega
+              rw [he] at hlt
+              exact halving acc n d i _ hn hd0 hki hlt
+            · have : K + 256 - (i + 1) = 256 := by omega
+              rw [this, ← W_eq]
+              exact Nat.lt_of_le_of_lt (Nat.div_le_self _ _) h2
+        · -- accum * numerator does not fit: accum ≥ 2^192, so the EIP value is ≥ 2^128
+          simp only [U256.checkedMul, h2, if_false]
+          have hbig : 2^192 ≤ acc := by
+            apply Nat.le_of_not_lt
+            intro hlt
+            have : acc * n < 2^192 * U64 := by
+              by_cases hn0 : n = 0
+              · subst hn0; rw [hU, h192]; omega
+              · exact Nat.mul_lt_mul'' hlt hn
+            rw [hU, h192] at this; omega
+          have := big_quot (out + acc) d hd0 hd (by omega)
+          rw [clamp_big r (Nat.le_trans this hge)]
+      · -- output + accum does not fit in 256 bits
+        simp only [U256.checkedAdd, h1, if_false]
+        have := big_quot (out + acc) d hd0 hd (by omega)
+        rw [clamp_big r (Nat.le_trans this hge)]
+    · simp only [hacc, if_false, Option.some.injEq] at h ⊢
+      have hd1 : d ≠ 0 := by omega
+      simp only [hd1, if_false, Option.some.injEq, Res.ok.injEq]
+      subst h
+      unfold toU128Sat U128_MAX
+      by_cases hq : out / d < U128
+      · simp only [hq, if_true]; omega
+      · simp only [hq, if_false]; omega
 
-/-! ### headline -/
+/-- headline, with explicit fuel: the repaired `fake_exponential` = EIP value clamped to `u128` -/
+theorem fake_exp_eq_fuel (fuel f n d r : Nat) (hf : f < U64) (hn : n < U64) (hd : d < U64) (hd0 : d ≠ 0)
+    (h : Spec.Blob.fakeExpFuel fuel f n d = some r) :
+    fakeExponential fuel f n d = some (.ok (Spec.Blob.clamp128 r)) := by
+  unfold fakeExponential
+  unfold Spec.Blob.fakeExpFuel at h
+  have hW := W_val; have hU := U64_val; have hKv := K_val
+  have hfd : f * d < W := by
+    have : f * d < U64 * U64 := Nat.mul_lt_mul'' hf hd
+    rw [hU] at this; omega
+  have hwm : U256.wmul f d = f * d := by unfold U256.wmul; exact Nat.mod_eq_of_lt hfd
+  simp only [hd0, if_false, hwm]
+  have := loop_sat n d hn (by omega) hd fuel 1 0 (f * d) r (by omega) hfd (fun hk => absurd hk (by rw [hKv]; omega)) h
+  rw [this]; rfl
 
-/-- model (either profile) = EIP value on the no-intermediate-overflow domain, with explicit fuel -/
-theorem fake_exp_eq_fuel (wrap : Bool) (fuel f n d : Nat) (hd : d ≠ 0)
-    (hfit : Spec.Blob.fitsFuel fuel f n d = true) :
-    fakeExponential wrap fuel f n d = (Spec.Blob.fakeExpFuel fuel f n d).map Res.ok := by
-  unfold Spec.Blob.fitsFuel at hfit
-  simp only [Bool.and_eq_true, decide_eq_true_eq] at hfit
-  unfold fakeExponential Spec.Blob.fakeExpFuel
-  have h0 : f * d < U128 := hfit.1
-  simp only [hd, if_false, mul128, h0, if_true]
-  exact loop_eq wrap fuel 1 0 (f * d) n d (by omega) (by omega) hfit.2
-
-theorem fake_exp_eq (wrap : Bool) (f n d r : Nat) (hd : d ≠ 0)
-    (hr : Spec.Blob.FakeExp f n d r) (hfit : Spec.Blob.NoIntermediateOverflow f n d) :
-    ∃ fuel0, ∀ fuel, fuel0 ≤ fuel → fakeExponential wrap fuel f n d = some (.ok r) := by
-  obtain ⟨fuel0, hsome, hfit⟩ := hfit
-  obtain ⟨r0, hr0⟩ := Option.isSome_iff_exists.mp hsome
-  have : r0 = r := fakeExp_unique f n d r0 r ⟨fuel0, hr0⟩ hr
-  subst this
-  have h1 := fake_exp_eq_fuel wrap fuel0 f n d hd hfit
-  rw [hr0] at h1
+theorem fake_exp_eq (f n d r : Nat) (hf : f < U64) (hn : n < U64) (hd : d < U64) (hd0 : d ≠ 0)
+    (hr : Spec.Blob.FakeExp f n d r) :
+    ∃ fuel0, ∀ fuel, fuel0 ≤ fuel → fakeExponential fuel f n d = some (.ok (Spec.Blob.clamp128 r)) := by
+  obtain ⟨fuel0, h0⟩ := hr
   refine ⟨fuel0, fun fuel hle => ?_⟩
   obtain ⟨k, rfl⟩ : ∃ k, fuel = fuel0 + k := ⟨fuel - fuel0, by omega⟩
-  unfold fakeExponential at h1 ⊢
-  by_cases hd0 : d = 0
-  · exact absurd hd0 hd
-  · simp only [hd0, if_false] at h1 ⊢
-    cases hm : mul128 wrap f d with
-    | panic => simp [hm] at h1
-    | ok a => simp only [hm] at h1 ⊢; exact model_fuel_mono wrap _ _ _ _ _ _ _ k h1
+  exact model_top_fuel_mono fuel0 k f n d _ (fake_exp_eq_fuel fuel0 f n d r hf hn hd hd0 h0)
 
-/-- a value that fits: the result of an overflow-free run is below 2^128 -/
-theorem loop_result_lt : ∀ fuel i out acc n d r, out < U128 →
-    Spec.Blob.loopFits U128 fuel i out acc n d = true →
-    Spec.Blob.fakeExpLoop fuel i out acc n d = some r → r < U128 := by
+/-! ### the Spec column (`fakeExpSat`) is the clamped EIP value -/
+
+theorem sat_loop_eq (n d : Nat) (hd0 : 0 < d) : ∀ fuel i out acc v fuel' r,
+    Spec.Blob.fakeExpSatLoop fuel i out acc n d = some v →
+    Spec.Blob.fakeExpLoop fuel' i out acc n d = some r → v = Spec.Blob.clamp128 r := by
   intro fuel
   induction fuel with
-  | zero => intro i out acc n d r ho hf h; simp [Spec.Blob.fakeExpLoop] at h
+  | zero => intro i out acc v fuel' r h; simp [Spec.Blob.fakeExpSatLoop] at h
   | succ k ih =>
-    intro i out acc n d r ho hf h
-    unfold Spec.Blob.fakeExpLoop at h
-    unfold Spec.Blob.loopFits at hf
-    by_cases hacc : acc > 0
-    · simp only [hacc, if_true, Bool.and_eq_true, decide_eq_true_eq] at h hf
-      exact ih _ _ _ _ _ _ hf.1.1.1.1 hf.2 h
-    · simp only [hacc, if_false, Option.some.injEq] at h
-      subst h
-      exact Nat.lt_of_le_of_lt (Nat.div_le_self _ _) ho
+    intro i out acc v fuel' r h h'
+    unfold Spec.Blob.fakeExpSatLoop at h
+    have hge := spec_result_ge n d _ _ _ _ _ h'
+    by_cases hbig : out ≥ 2^128 * d
+    · simp only [hbig, if_true, Option.some.injEq] at h
+      have : 2^128 ≤ out / d := (Nat.le_div_iff_mul_le hd0).mpr hbig
+      subst h; unfold Spec.Blob.clamp128; omega
+    · simp only [hbig, if_false] at h
+      cases fuel' with
+      | zero => simp [Spec.Blob.fakeExpLoop] at h'
+      | succ m =>
+        unfold Spec.Blob.fakeExpLoop at h'
+        by_cases hacc : acc > 0
+        · simp only [hacc, if_true] at h h'
+          exact ih _ _ _ _ _ _ h h'
+        · simp only [hacc, if_false, Option.some.injEq] at h h'
+          subst h h'
+          have : out / d < 2^128 := (Nat.div_lt_iff_lt_mul hd0).mpr (by omega)
+          unfold Spec.Blob.clamp128; omega
 
-/-- downward closure in the numerator, at fixed fuel -/
-theorem fitsFuel_mono (fuel f n n' d : Nat) (hn : n ≤ n')
-    (h : Spec.Blob.fitsFuel fuel f n' d = true) : Spec.Blob.fitsFuel fuel f n d = true := by
-  unfold Spec.Blob.fitsFuel at h ⊢
-  simp only [Bool.and_eq_true] at h ⊢
-  exact ⟨h.1, fits_mono _ d fuel 1 0 0 _ _ n n' (Nat.le_refl _) (Nat.le_refl _) hn h.2⟩
-
-theorem isSome_mono (fuel f n n' d : Nat) (hn : n ≤ n')
-    (h : (Spec.Blob.fakeExpFuel fuel f n' d).isSome = true) : (Spec.Blob.fakeExpFuel fuel f n d).isSome = true := by
-  unfold Spec.Blob.fakeExpFuel at h ⊢
-  exact term_mono d fuel 1 0 0 _ _ n n' (Nat.le_refl _) hn h
-
-/-- everything below an overflow-free numerator is computed exactly, in both profiles -/
-theorem below_threshold (wrap : Bool) (fuel f n n' d : Nat) (hd : d ≠ 0) (hn : n ≤ n')
-    (hsome : (Spec.Blob.fakeExpFuel fuel f n' d).isSome = true)
-    (hfit : Spec.Blob.fitsFuel fuel f n' d = true) :
-    ∃ r, Spec.Blob.fakeExpFuel fuel f n d = some r ∧ r < U128 ∧ fakeExponential wrap fuel f n d = some (.ok r) := by
-  have h1 := fitsFuel_mono fuel f n n' d hn hfit
-  obtain ⟨r, hr⟩ := Option.isSome_iff_exists.mp (isSome_mono fuel f n n' d hn hsome)
-  refine ⟨r, hr, ?_, ?_⟩
-  · unfold Spec.Blob.fitsFuel at h1
-    simp only [Bool.and_eq_true, decide_eq_true_eq] at h1
-    exact loop_result_lt fuel 1 0 _ n d r (by rw [U128_val]; omega) h1.2 hr
-  · rw [fake_exp_eq_fuel wrap fuel f n d hd h1, hr]; rfl
+theorem sat_eq_clamp (fuel f n d v r : Nat) (hd0 : d ≠ 0)
+    (h : Spec.Blob.fakeExpSat fuel f n d = some v) (hr : Spec.Blob.FakeExp f n d r) :
+    v = Spec.Blob.clamp128 r := by
+  obtain ⟨fuel', h'⟩ := hr
+  exact sat_loop_eq n d (by omega) fuel 1 0 (f * d) v fuel' r h h'
 
 /-! ### excess blob gas -/
 
-theorem excess_eq_iff (a b t : Nat) (ha : a < U64) (hb : b < U64) (ht : t < U64) :
-    (∃ v, calcExcessBlobGas true a b t = .ok v ∧ (v : Int) = Spec.Blob.excessBlobGas a b t) ↔ a + b < U64 := by
+theorem excess_eq (a b t : Nat) (ha : a < U64) (hb : b < U64) (ht : t < U64) :
+    (calcExcessBlobGas a b t : Int) = Spec.Blob.excessBlobGasClamped a b t := by
+  have hU := U64_val; have h8 := U128_val
+  unfold calcExcessBlobGas U64_MAX Spec.Blob.excessBlobGasClamped Spec.Blob.excessBlobGas
+  have hs : (a + b) % U128 = a + b := Nat.mod_eq_of_lt (by omega)
+  simp only [hs]
+  have h64 : ((2:Int)^64 - 1) = 18446744073709551615 := by decide
+  rw [h64]
+  by_cases h : a + b - t < U64
+  · simp only [h, if_true]; rw [hU] at h; omega
+  · simp only [h, if_false]; rw [hU] at h ⊢; omega
+
+theorem excess_lt (a b t : Nat) : calcExcessBlobGas a b t < U64 := by
   have hU := U64_val
-  unfold calcExcessBlobGas add64 U64ops.saturatingSub Spec.Blob.excessBlobGas
-  by_cases h : a + b < U64
-  · simp only [h, if_true, iff_true]
-    refine ⟨_, rfl, ?_⟩
-    omega
-  · simp only [h, if_false, if_true, iff_false]
-    rintro ⟨v, hv, hs⟩
-    simp only [Res.ok.injEq] at hv
-    subst hv
-    rw [hU] at h ha hb ht hs
-    omega
+  unfold calcExcessBlobGas U64_MAX
+  by_cases h : (a + b) % U128 - t < U64
+  · simp only [h, if_true]
+  · simp only [h, if_false]; omega
 
-theorem excess_debug (a b t : Nat) :
-    calcExcessBlobGas false a b t = if a + b < U64 then .ok (a + b - t) else .panic := by
-  unfold calcExcessBlobGas add64 U64ops.saturatingSub
-  by_cases h : a + b < U64 <;> simp [h]
-
-
-/-! ### lifting to `fakeExponential`, concrete thresholds and witnesses -/
-
-theorem debug_ok_imp_top (fuel f n d r : Nat) (h : fakeExponential false fuel f n d = some (.ok r)) :
-    d ≠ 0 ∧ Spec.Blob.fakeExpFuel fuel f n d = some r ∧ Spec.Blob.fitsFuel fuel f n d = true := by
-  unfold fakeExponential at h
-  by_cases hd : d = 0
-  · simp [hd] at h
-  · simp only [hd, if_false] at h
-    by_cases h0 : f * d < U128
-    · simp only [mul128, h0, if_true] at h
-      have := debug_ok_imp fuel 1 0 (f * d) n d r h
-      refine ⟨hd, this.1, ?_⟩
-      unfold Spec.Blob.fitsFuel
-      simp only [Bool.and_eq_true, decide_eq_true_eq]
-      exact ⟨h0, this.2⟩
-    · simp [mul128, h0] at h
-
-theorem model_top_fuel_mono (wrap : Bool) (fuel k f n d : Nat) (r : Res Nat)
-    (h : fakeExponential wrap fuel f n d = some r) : fakeExponential wrap (fuel + k) f n d = some r := by
-  unfold fakeExponential at h ⊢
-  by_cases hd : d = 0
-  · simpa [hd] using h
-  · simp only [hd, if_false] at h ⊢
-    cases hm : mul128 wrap f d with
-    | panic => simpa [hm] using h
-    | ok a => simp only [hm] at h ⊢; exact model_fuel_mono wrap _ _ _ _ _ _ _ k h
-
-/-- the model's answer does not depend on the fuel -/
-theorem model_top_unique (wrap : Bool) (a b f n d : Nat) (r r' : Res Nat)
-    (h : fakeExponential wrap a f n d = some r) (h' : fakeExponential wrap b f n d = some r') : r = r' := by
-  have h1 := model_top_fuel_mono wrap a b f n d r h
-  have h2 := model_top_fuel_mono wrap b a f n d r' h'
-  rw [Nat.add_comm b a, h1] at h2
-  exact Option.some.inj h2
+/-! ### regression points (the witnesses of the former finding) -/
 
 def CANCUN : Nat := 3338477
 def PRAGUE : Nat := 5007716
-/-- smallest excess blob gas at which an intermediate product of `fake_exponential` reaches 2^128 -/
-def CANCUN_LIMIT : Nat := 192204553
-def PRAGUE_LIMIT : Nat := 284284039
 
-theorem cancun_fits : Spec.Blob.fitsFuel 400 1 (CANCUN_LIMIT - 1) CANCUN = true := by decide +kernel
-theorem cancun_some : (Spec.Blob.fakeExpFuel 400 1 (CANCUN_LIMIT - 1) CANCUN).isSome = true := by decide +kernel
-theorem prague_fits : Spec.Blob.fitsFuel 400 1 (PRAGUE_LIMIT - 1) PRAGUE = true := by decide +kernel
-theorem prague_some : (Spec.Blob.fakeExpFuel 400 1 (PRAGUE_LIMIT - 1) PRAGUE).isSome = true := by decide +kernel
-theorem small_fits : Spec.Blob.fitsFuel 400 1 87 1 = true := by decide +kernel
-theorem small_some : (Spec.Blob.fakeExpFuel 400 1 87 1).isSome = true := by decide +kernel
-
-theorem cancun_spec_at : Spec.Blob.fakeExpFuel 400 1 CANCUN_LIMIT CANCUN = some 10079296854086811361005191 := by decide +kernel
-theorem cancun_release_at : fakeExponential true 400 1 CANCUN_LIMIT CANCUN = some (.ok 5089730449835472321748656) := by decide +kernel
-theorem cancun_debug_at : fakeExponential false 400 1 CANCUN_LIMIT CANCUN = some .panic := by decide +kernel
-theorem prague_spec_at : Spec.Blob.fakeExpFuel 400 1 PRAGUE_LIMIT PRAGUE = some 4513890120847598646169468 := by decide +kernel
-theorem prague_release_at : fakeExponential true 400 1 PRAGUE_LIMIT PRAGUE = some (.ok 2232503661301042500055690) := by decide +kernel
-theorem prague_debug_at : fakeExponential false 400 1 PRAGUE_LIMIT PRAGUE = some .panic := by decide +kernel
+theorem cancun_spec_at : Spec.Blob.fakeExpFuel 400 1 192204553 CANCUN = some 10079296854086811361005191 := by decide +kernel
+theorem cancun_model_at : fakeExponential 400 1 192204553 CANCUN = some (.ok 10079296854086811361005191) := by decide +kernel
+theorem prague_spec_at : Spec.Blob.fakeExpFuel 400 1 284284039 PRAGUE = some 4513890120847598646169468 := by decide +kernel
+theorem prague_model_at : fakeExponential 400 1 284284039 PRAGUE = some (.ok 4513890120847598646169468) := by decide +kernel
+theorem small_spec_at : Spec.Blob.fakeExpFuel 400 1 88 1 = some 165162653699637111792770913913821835905 := by decide +kernel
+theorem small_model_at : fakeExponential 400 1 88 1 = some (.ok 165162653699637111792770913913821835905) := by decide +kernel
+theorem max_model_at : fakeExponential 400 1 18446744073709551615 CANCUN = some (.ok 340282366920938463463374607431768211455) := by decide +kernel
 
 end Revm.Proofs.Blob
